@@ -10,24 +10,24 @@
 // real code was OBSERVED to take in that step (the Lean model checks that this action is enabled and
 // replays it). The output column is the observation of the state after the step:
 //
-//   cfg <nSeries> <samplesPerChunk>
-//   tx <a> <c|r> <s:t:v,…|->                        transaction of appender a (commit or rollback)
-//   step a<a> | begin <s:t:v,…|->                   Appender() + all Append()s; lists the accepted samples
-//   step a<a> | commit <s> <t> <v> <ok|drop> <cuts> one sample went through commitFloats' critical section
-//   step a<a> | close                               rest of Commit (deferred iso.closeAppend)
-//   step a<a> | rollback                            Rollback()
-//   step r<r> new <q|c> | new <q|c>                 q = tsdb.NewBlockQuerier, c = Index()+Chunks() readers
-//   step r<r> read <s> | read <s>                   all samples of series s through the reader
-//   step r<r> list <s> | list <s>                   (c readers) IndexReader.Series: chunk metas of s
-//   step r<r> chunk <s> <k> | chunk <s> <k>         (c readers) k-th listed chunk: ChunkOrIterable + Iterator
-//   step r<r> close | close
-//   step mmap | mmap <events>                       Head.mmapHeadChunks(); events = chunk.mmap hook count
-//   anything not executable in the current state  →  "… | noop"
+//	cfg <nSeries> <samplesPerChunk>
+//	tx <a> <c|r> <s:t:v,…|->                        transaction of appender a (commit or rollback)
+//	step a<a> | begin <s:t:v,…|->                   Appender() + all Append()s; lists the accepted samples
+//	step a<a> | commit <s> <t> <v> <ok|drop> <cuts> one sample went through commitFloats' critical section
+//	step a<a> | close                               rest of Commit (deferred iso.closeAppend)
+//	step a<a> | rollback                            Rollback()
+//	step r<r> new <q|c> | new <q|c>                 q = tsdb.NewBlockQuerier, c = Index()+Chunks() readers
+//	step r<r> read <s> | read <s>                   all samples of series s through the reader
+//	step r<r> list <s> | list <s> <ids|->           (c readers) IndexReader.Series: the chunk ids listed for s
+//	step r<r> chunk <s> <k> | chunk <s> <k>         (c readers) listed chunk with id k: ChunkOrIterable + Iterator
+//	step r<r> close | close
+//	step mmap | mmap <events>                       Head.mmapHeadChunks(); events = chunk.mmap hook count
+//	anything not executable in the current state  →  "… | noop"
 //
-//   out:  <specific> | <series digests> | <isolation digest>
-//     series digest   s<k>:mm=<n,…|->:hd=<n,…|->:ring=<cap>/<first>/<count>/<ids|->
-//     isolation       last=<id> open=<ids|-> lw=<id> rd=<max:lw:inc+inc;…|->      (readers oldest first)
-//     specific        begin: id=<appendID> cb=<cleanupBelow>; read/chunk: t:v,…|-; list: number of chunks
+//	out:  <specific> | <series digests> | <isolation digest>
+//	  series digest   s<k>:mm=<n,…|->:hd=<n,…|->:ring=<cap>/<first>/<count>/<ids|->
+//	  isolation       last=<id> open=<ids|-> lw=<id> rd=<max:lw:inc+inc;…|->      (readers oldest first)
+//	  specific        begin: id=<appendID> cb=<cleanupBelow>; read/chunk: t:v,…|-
 package main
 
 import (
@@ -110,12 +110,12 @@ type appG struct {
 }
 
 type reader struct {
-	kind    string
-	q       storage.Querier
-	ir      tsdb.IndexReader
-	cr      tsdb.ChunkReader
-	listed  map[int][]chunks.Meta
-	closed  bool
+	kind   string
+	q      storage.Querier
+	ir     tsdb.IndexReader
+	cr     tsdb.ChunkReader
+	listed map[int][]chunks.Meta
+	closed bool
 }
 
 type world struct {
@@ -472,17 +472,27 @@ func (w *world) step(f []string) (string, string) {
 				return "noop", "noop"
 			}
 			r.listed[s] = r.list(s)
-			return "list " + f[3], strconv.Itoa(len(r.listed[s]))
+			ids := make([]int, len(r.listed[s]))
+			for i, m := range r.listed[s] {
+				_, cid := chunks.HeadChunkRef(m.Ref).Unpack()
+				ids[i] = int(cid)
+			}
+			return "list " + f[3] + " " + ints(ids), "listed"
 		case "chunk":
 			if r == nil || r.closed || r.kind != "c" || len(f) < 5 {
 				return "noop", "noop"
 			}
 			s, e1 := strconv.Atoi(f[3])
 			k, e2 := strconv.Atoi(f[4])
-			if e1 != nil || e2 != nil || k < 0 || k >= len(r.listed[s]) {
+			if e1 != nil || e2 != nil {
 				return "noop", "noop"
 			}
-			return fmt.Sprintf("chunk %d %d", s, k), joinOr(r.chunk(r.listed[s][k]))
+			for _, m := range r.listed[s] {
+				if _, cid := chunks.HeadChunkRef(m.Ref).Unpack(); int(cid) == k {
+					return fmt.Sprintf("chunk %d %d", s, k), joinOr(r.chunk(m))
+				}
+			}
+			return "noop", "noop"
 		case "close":
 			if r == nil || r.closed {
 				return "noop", "noop"
@@ -802,6 +812,9 @@ func randomCase(r *h.Rng) []string {
 			break
 		}
 		i := live[r.Intn(len(live))]
+		if i >= len(cf.txs) && i < len(cf.txs)+len(cf.readers) && pos[i] == 0 && len(live) > 1 && r.Chance(70) {
+			continue // readers tend to be created late, when transactions are in flight or finished
+		}
 		out = append(out, ths[i].steps[pos[i]])
 		pos[i]++
 	}
